@@ -68,7 +68,9 @@ SeqsUpTo(S, n) == InjSeqs(S, n)
 V4Pool  == {Rule("r1", "allow", {"a1"}, {"a3"}, {"s80"}, ""), Rule("r2", "allow", {"a2"}, {"any"}, {"s53"}, ""),
             Rule("r3", "deny", {"any"}, {"any"}, {"any"}, "")}
 V6Pool  == {Rule("v6r1", "allow", {"a6"}, {"any"}, {"s80"}, ""), Rule("v6r2", "deny", {"any"}, {"a6"}, {"any"}, "")}
-PrePool == {Rule("rawA", "allow", {"any"}, {"a3"}, {"s22"}, ""), Rule("rawB", "deny", {"a9"}, {"any"}, {"any"}, "")}
+\* rawE uses a service-group that only the raw file defines
+PrePool == {Rule("rawA", "allow", {"any"}, {"a3"}, {"s22"}, ""), Rule("rawB", "deny", {"a9"}, {"any"}, {"any"}, ""),
+            Rule("rawE", "allow", {"any"}, {"any"}, {"sgR"}, "")}
 AppPool == {Rule("rawC", "deny", {"any"}, {"any"}, {"s22"}, ""), Rule("rawD", "allow", {"a9"}, {"any"}, {"any"}, "")}
 AddrValM == AddrVal @@ [a6 |-> "2001:db8:1::1/128", a9 |-> "10.9.9.9/32"]
 M1 ==
@@ -77,9 +79,24 @@ M1 ==
     /\ dev = Cfg(<<>>, NoFn, NoFn, AddrValM, SvcVal)
     /\ tgt = Cfg(v4, NoFn, NoFn, AddrValM, SvcVal) @@
              [parts |-> [v4 |-> v4, v6 |-> v6, pre |-> pre, app |-> app,
-                         c6 |-> Cfg(v6, NoFn, NoFn, AddrValM, SvcVal), craw |-> Cfg(pre \o app, NoFn, NoFn, AddrValM, SvcVal)]]
+                         c6 |-> Cfg(v6, NoFn, NoFn, AddrValM, SvcVal),
+                         craw |-> Cfg(pre \o app, NoFn,
+                                      IF \E i \in DOMAIN pre : pre[i].name = "rawE" THEN [n \in {"sgR"} |-> {"s22"}] ELSE NoFn,
+                                      AddrValM, SvcVal)]]
 
-Init == CASE Fam = "M1" -> M1 [] Fam = "P7" -> P7 [] Fam = "P1" -> P1 [] Fam = "P2" -> P2 [] Fam = "P3" -> P3
+(* M2: the same merge on a vsys that already holds rules (bodies of all parts under device names): *)
+(* the incremental commands must arrive at the effective target raw, Netspoc, APPEND               *)
+M2 ==
+  \E a \in InjSeqs({[r EXCEPT !.name = ""] : r \in V4Pool \cup (PrePool \ {Rule("rawE", "allow", {"any"}, {"any"}, {"sgR"}, "")}) \cup AppPool}, 2),
+     v4 \in InjSeqs(V4Pool, 2), pre \in SeqsUpTo(PrePool \ {Rule("rawE", "allow", {"any"}, {"any"}, {"sgR"}, "")}, 1), app \in SeqsUpTo(AppPool, 1) :
+    /\ v4 # <<>> /\ (pre # <<>> \/ app # <<>>)
+    /\ dev = Cfg(Named(a, <<"d1", "d2">>), NoFn, NoFn, AddrValM, SvcVal)
+    /\ tgt = Cfg(v4, NoFn, NoFn, AddrValM, SvcVal) @@
+             [parts |-> [v4 |-> v4, v6 |-> <<>>, pre |-> pre, app |-> app,
+                         c6 |-> Cfg(<<>>, NoFn, NoFn, AddrValM, SvcVal), craw |-> Cfg(pre \o app, NoFn, NoFn, AddrValM, SvcVal),
+                         merged |-> Cfg(pre \o v4 \o app, NoFn, NoFn, AddrValM, SvcVal)]]
+
+Init == CASE Fam = "M2" -> M2 [] Fam = "M1" -> M1 [] Fam = "P7" -> P7 [] Fam = "P1" -> P1 [] Fam = "P2" -> P2 [] Fam = "P3" -> P3
 Next == UNCHANGED <<dev, tgt>>
 HasTie == \E g, h \in DOMAIN dev.groups : g # h /\ dev.groups[g] = dev.groups[h]
 Out == PrintT(<<"VOUT", ToJson([fam |-> Fam, dev |-> dev, tgt |-> tgt, tie |-> HasTie])>>)
